@@ -113,6 +113,11 @@ fn gen_line(rng: &mut Rng, fixed_point: bool) -> String {
             s
         }
         4 => "ｱｲ-./｢ab12()".chars().filter(|_| rng.chance(2, 3)).collect(),
+        6 => {
+            // katakana words written with look-alike dashes
+            let n = rng.range(2, 8);
+            (0..n).map(|_| if rng.chance(1, 3) { *rng.pick(gen::DASHES) } else { *rng.pick(&['ス', 'パ', 'コ', 'ヒ', 'ア', 'イ', '漢', '。']) }).collect()
+        }
         5 => {
             if rng.chance(1, 6) {
                 // longer than the 8 KiB stdin buffer of the tool
